@@ -151,17 +151,21 @@ def run(ctx, res):
             if "error" in v:
                 res.add_violation(f"loader:{n}", f"loader fails when {n} is a data column: {v['error']}", dict(kind="loader", node=n, error=v["error"]), True)
                 continue
+            derived = lambda kd: kd["k"] in ("timeconv", "group_agg", "pid_agg")      # noqa: E731
             for k, nd in d["nodes"].items():
                 nv = v["nodes"].get(k)
                 if nv is None:
+                    if k == n and derived(nd["kind"]):
+                        continue        # a derived function (conversion / aggregate) is simply not created when a column of its name is supplied
                     if k in nodes:
                         res.add_violation(f"loader:{n}:{k}", f"with {n} supplied as data the loader no longer creates node {k} ({impl.iso(o)})",
                                           dict(kind="loader", date=impl.iso(o), node=n, lost=k), True)
                     continue
-                if k != n and k in nodes and (nv["args"] != nd["args"] or nv["kind"] != nd["kind"]):
+                if k != n and k in nodes and (nv["args"] != nd["args"] or nv["kind"] != nd["kind"]) and not (derived(nd["kind"]) and derived(nv["kind"])):
+                    # (a derived node may be re-derived from the supplied column, e.g. x_m from a supplied x_y: same values; rules must not change)
                     res.add_violation(f"loader:{n}:{k}", f"with {n} supplied as data node {k} is defined differently: {nd['kind']}/{nd['args']} -> {nv['kind']}/{nv['args']}",
                                       dict(kind="loader", date=impl.iso(o), node=n, changed=k, before=nd, after=nv), True)
-            if not v["nodes"].get(n, {}).get("overridden", False):
+            if not v["nodes"].get(n, {}).get("overridden", False) and not derived(d["nodes"][n]["kind"]):
                 res.add_violation(f"loader-not-overridden:{n}", f"{n} supplied as data is not treated as overriding its function", dict(kind="loader", node=n), True)
         if len(res.samples) < 4:
             res.samples.append(dict(unit="override", date=impl.iso(o), rows=len(df), overridden_nodes=pick[:5]))
